@@ -19,6 +19,11 @@ SHAPES = [
     ("listindex.sym", "(('prim', 'l'), ('prim', i))", "{'l': [S2, S1, u1], 'm': S1}"),
     ("list.fan", "(('prim', 'l'), ('list', NULL))", "{'l': [S1, u1, S2], 'm': S2}"),
     ("nested", "(('mol', NULL, NULL, NULL), ('mol', NULL, NULL, NULL))", "{'a': [S1, u1], 1: {None: S2, 2: S1}, 'c': S1, 'd': [[S2]]}"),
+    # fan-out followed by further parts, where earlier siblings cannot be descended into (scalar, empty, other container kind)
+    ("midpath.scalar_before", "(('map', NULL), ('map', NULL))", "{'a': u1, 'e': {}, 'b': {'k': S1, 'j': S2}, 's': 'x'}"),
+    ("midpath.empty_before", "(('list', NULL), ('map', NULL))", "[{0: S2}, {}, u1, {0: S1}]"),
+    ("midpath.otherkind_before", "(('map', NULL), ('prim', 'k'))", "{'a': [S2], 'b': u1, 'c': {'k': S1}, 'd': {'k': S2}}"),
+    ("midpath.three_parts", "(('prim', 'jobs'), ('mol', NULL, NULL, NULL), ('mol', NULL, NULL, NULL))", "{'jobs': [u1, [], {'p': S1}, None, [S2, 'x']]}"),
     ("keycond", "(('map', K('not_equal_to', k)),)", "{'a': S1, 'b': S2, 'c': u1}"),
     ("empty", "()", "{'a': S1, 'c': u1}"),
     ("missing", "(('prim', 'zz'), ('prim', 'y'))", "{'a': S1, 'c': u1}"),
